@@ -42,6 +42,8 @@ def stepC05 (toks : List String) : Option String :=
   | ["u_fromhpx", u] => do let u ← u.toNat?; let c := fromUniqHpx u; pure s!"{c.1}/{c.2}"
   | ["u_gen", q, d, i] => do let q ← qtyOf q; let d ← d.toNat?; let i ← i.toNat?; pure (toString (toUniqGen q d i))
   | ["u_fromgen", q, u] => do let q ← qtyOf q; let u ← u.toNat?; let c := fromUniqGen q u; pure s!"{c.1}/{c.2}"
+  | ["u_genrange", q, w, u] => do
+    let q ← qtyOf q; let w ← w.toNat?; let u ← u.toNat?; pure (showRngs [uniqGenToRange q w u])
   | ["u_z", q, w, d, i] => do
     let q ← qtyOf q; let w ← w.toNat?; let d ← d.toNat?; let i ← i.toNat?; pure (toString (toZuniq q w d i))
   | ["u_fromz", q, w, z] => do
